@@ -349,7 +349,7 @@ def run(ctx):
                     failures.append(dict(case=l1case(h), families=[],
                                          fails=[("AddVar gave a variable a name that is not an identifier: %s"
                                                  % ", ".join(h["names"][:3]), "invalid identifier")]))
-            notes.append("L1: %d histories of AddImport/AddVar on the real registry vs the model: %s; %d variables, "
+            notes.insert(0, "L1: %d histories of AddImport/AddVar on the real registry vs the model: %s; %d variables, "
                          "%d imports" % (l1["n"], l1["verdicts"], l1["stats"].get("vars", 0), l1["stats"].get("imports", 0)))
             evaluated += l1["evaluated"]
     else:  # mock-structure properties: the Coq checkers on the lifted programs
@@ -365,6 +365,15 @@ def run(ctx):
                                          fails=[("moq fails on an interface the model generates a mock for (%s): %s"
                                                  % ("-stub" if cr["case"]["stub"] else "flags as given", (cr.get("text") or "")[:160]),
                                                  "no mock generated")]))
+            if (cr["kind"] == "out" and (cr.get("facts") or {}).get("parse_error") and cr["verdict"] != "ok"
+                    and not (set(cr["families"]) & set(ALL_FAMILIES))):
+                # the real output is not the model's output byte for byte and does not parse: there is no mock
+                owner = "C07" if cr["case"]["stub"] else ("C08" if cr["case"]["resets"] else "C03")
+                if ctx.pid == owner:
+                    failures.append(dict(case=cr, families=sorted(cr["families"]),
+                                         fails=[("the generated file does not parse (%s): %s"
+                                                 % ("-stub" if cr["case"]["stub"] else "flags as given",
+                                                    str(cr["facts"].get("parse_error"))[:160]), "no mock generated")]))
             if cr["kind"] != "out":
                 continue
             evaluated += 1
